@@ -360,7 +360,7 @@ def sharded(fn, cases, nshards=None):
     return res
 
 
-def harness(sub, cases, timeout_s=10, debug=False, env=None, pre=()):
+def harness(sub, cases, timeout_s=40, debug=False, env=None, pre=()):
     binp = HARNESS_DBG if debug else HARNESS_BIN
     return sharded(lambda cs: run_lines([binp, "--timeout", str(timeout_s)] + list(pre) + [sub], cs, timeout_s, env),
                    cases)
